@@ -76,11 +76,15 @@ PROPS.update({
         known_finding_checks=[store.known_c11],
         level_text="Proof: streaming replay delivers every event once in order and returns nil; under any fault it delivers a gap-free prefix and returns nil only after everything; SQLite batched streaming is complete for every batch size >= 1 and a gap-free prefix under any fault; the paging fallback is complete for every batch size over every store satisfying the paging contract (memory and SQLite proved to) and a prefix under any fault. Known finding proved as witness (ds_replay_loses_events) with the partial statement ds_replay_untruncated_partial.",
         level_note="Trusted: as C10. 'Replay never appends and never invokes handlers' is structural in the model (Replay has no access to the registry) and checked by the harness counters appends=0 handlers=0."),
-    "C18": dict(module="Ebu.Props.C18",
+    "C18": dict(module="Ebu.Props.C18", ready=True,
+        level_text="Proof: for every log and every (entity type, key), the value the materializer holds equals the declarative lastWrite of the log (last successfully applied insert/update not followed by a delete of the key or a reset), in strict and non-strict mode; snapshot markers, unknown operations/controls and unregistered types change no collection; reset empties all; LastOffset is the offset of the last successfully applied event; a log applied in two sessions, the second resumed from LastOffset, gives the state of one session; composite keys are injective per entity type (keys containing '/').",
+        level_note="Trusted: Lean kernel + 3 standard axioms; correspondence harness; encoding/json decoding of entity documents (abstracted to 'value decodes or not'); one backing store per collection. Resumption over the durable-streams store inherits the known finding of C10 (synthetic offsets), so the state harness uses that store only for one-session round trips.",
         parts=[dict(name="state18", domain="state", domain_module="state", gen=state.make_gen("C18"), n_quick=300, n_thorough=10000, chunk=64)],
         rule="random message sequences over 3 registered-able entity types (one with a custom name containing '/') + an unregistered one, 9 keys incl. '/', 'b/c', unicode, strict and non-strict, memory/SQLite/durable-streams, replays resumed from LastOffset at random points and a fresh one-session replay at the end; non-trivial = a collection is non-empty at some dump and a delete/reset/control occurred",
         trusted_base=["encoding/json decoding of entity documents", "one backing store per collection"], assumptions=COMMON_ASSUME),
-    "C19": dict(module="Ebu.Props.C19",
+    "C19": dict(module="Ebu.Props.C19", ready=True,
+        level_text="Proof: decode(encode m) = m for helper-built change messages (all 16 option/old-value combinations) and control messages over a JSON abstraction with Go's case-insensitive, last-key-wins, null-is-zero decoding; the encoded object has exactly the state-protocol field names with omitempty; non-objects are rejected; an Apply that returns an error leaves every collection and LastOffset unchanged, and errors are characterised exactly. Byte-level robustness (arbitrary bytes never panic) is sampled by a fuzz judge on the implementation: partial there.",
+        level_note="Trusted: Lean kernel + 3 standard axioms; correspondence harness (30 hostile documents classified by the model, wire bytes of every helper-built message parsed with Lean.Data.Json and compared with the model's encoder); encoding/json itself. 'Never panics on arbitrary bytes' is a statement about encoding/json plus ~30 lines of Go: sampled, not proved.",
         parts=[dict(name="state19", domain="state", domain_module="state", gen=state.make_gen("C19"), n_quick=300, n_thorough=10000, chunk=64)],
         rule="as C18 plus a table of 30 hostile/odd documents (case variants, duplicate keys, wrong types, nulls, missing parts) classified by the model, every helper-built message's JSON bytes parsed and compared with the model's encoder, and a byte-level fuzz of Apply (mutated + random bytes) judged on the implementation; non-trivial = raw documents or option combinations present",
         trusted_base=["encoding/json (syntax, case-insensitive field matching as transcribed)"], assumptions=COMMON_ASSUME),
